@@ -138,10 +138,10 @@ def ttable(header: str, d: dict[str, Any]) -> str:
 
 NAMES = ["mypkg", "my-package", "My.Package_name", "A.b--c", "pkg2", "Foo_Bar", "x", "zope.interface", "Django-Thing",
          "a1-b2.c3", "UPPER", "snake_case_name", "dotted.name.here", "multi---dash", "p_q-r.s", "lib9"]
-RELEASES = ["0.1.0", "1.2.3", "1.0", "2", "0.0.1", "2024.10.1", "1.2.3.4", "10.20"]
-PRES = ["", "", "", "a1", "b2", "rc3", "alpha4", "RC1", ".beta.5", "-pre6", "c7"]
-POSTS = ["", "", "", ".post1", "-2", ".rev3", "post4"]
-DEVS = ["", "", "", ".dev0", ".dev12", "dev3"]
+RELEASES = ["0.1.0", "1.2.3", "1.0", "2", "0.0.1", "2024.10.1", "1.2.3.4", "10.20", "1.02.003", "01.0", "1.0.0"]
+PRES = ["", "", "", "a1", "b2", "rc3", "alpha4", "RC1", ".beta.5", "-pre6", "c7", "-beta.1", "-alpha", "_rc_02", "preview3"]
+POSTS = ["", "", "", ".post1", "-2", ".rev3", "post4", "-1", ".POST.05", "-r7"]
+DEVS = ["", "", "", ".dev0", ".dev12", "dev3", "-dev", ".DEV.007"]
 LOCALS = ["", "", "", "+local", "+ubuntu.1", "+abc.5.def", "+001", "+Build.7"]
 LOCAL_LABELS = ["dev1", "ci.42", "abc", "1", "x.y.z", "20240101.gdeadbeef", "07"]   # [a-z0-9.] only (D11 otherwise)
 PYTHONS = [">=3.8", "^3.9", ">=3.7,<4.0", "~3.10", ">=2.7", "~2.7 || ^3.6", "*", ">=3.8,!=3.9.0"]
@@ -428,7 +428,7 @@ def generate(rnd: random.Random, want: set[str] | None = None) -> Project:
         for g in rnd.sample(EP_GROUPS, rnd.randint(1, 2)):
             groups[g] = {f"{rnd.choice(WORDS)}{rnd.randrange(50)}": f"{mod}.{rnd.choice(WORDS)}:{rnd.choice(['Plugin', 'hook [extra1]', 'obj.attr'])}"
                          for _ in range(rnd.randint(1, 3))}
-    if rnd.random() < 0.35:
+    if rnd.random() < 0.45:
         feats.append("file-scripts")
         seen: set[str] = set()
         for _ in range(rnd.randint(1, 3)):
